@@ -23,7 +23,7 @@ import (
 )
 
 // structs for which a Lean structure is generated, in dependency order
-var genStructs = []string{"pathExpression", "Route", "curlyRoute", "WebService", "routeCandidate", "dispatcherCandidate", "sortableRouteCandidates", "sortableDispatcherCandidates", "Request", "Container", "CrossOriginResourceSharing"}
+var genStructs = []string{"pathExpression", "Route", "curlyRoute", "WebService", "routeCandidate", "dispatcherCandidate", "sortableRouteCandidates", "sortableDispatcherCandidates", "Request", "Container", "CrossOriginResourceSharing", "mime"}
 
 // effect types: what a function does to a `*Response` / a `*FilterChain` is a log the function returns
 //
@@ -52,7 +52,7 @@ var isGenStruct = map[string]bool{}
 
 // flattenRecv: targets translated before struct support whose receiver stays flattened into
 // parameters (their tie theorems are stated over the flattened signature)
-var flattenRecv = map[string]bool{"defaultPathProcessor.ExtractParameters": true, "Route.matchesAccept": true, "Route.matchesContentType": true}
+var flattenRecv = map[string]bool{"defaultPathProcessor.ExtractParameters": true, "Route.matchesAccept": true, "Route.matchesContentType": true, "Response.EntityWriter": true}
 
 // typeDefs: `type X <non-struct type>` of the package
 var typeDefs = map[string]ast.Expr{"regexpMatch": &ast.ArrayType{Elt: ast.NewIdent("string")}}
